@@ -322,6 +322,34 @@ func runSlotOp(w []string, op string, i int) (out string, fails []corr.Fail) {
 		case fc.IsDifferentChain():
 			class = "betterChain"
 		}
+		// receive times carry nanoseconds in the node (time.Now()); the protocol counts whole seconds: the same
+		// second with any sub-second fraction must give the same classification (truncation, not rounding)
+		for _, ns := range []int64{1e6, 499e6, 500e6, 999e6} {
+			var rl *time.Time
+			if recvLast != nil {
+				t := time.Unix(recvLast.Unix(), ns)
+				rl = &t
+			}
+			for _, which := range []string{"incoming", "tip", "both"} {
+				rc := time.Unix(int64(recvCur), 0)
+				rl2 := recvLast
+				if which != "tip" {
+					rc = time.Unix(int64(recvCur), ns)
+				}
+				if which != "incoming" {
+					rl2 = rl
+				}
+				fc2, err2 := forkchoice.VerifNewForkChoiceAt(last, cur, bs, rl2, rc)
+				if err2 != nil {
+					continue
+				}
+				got := fmt.Sprintf("%v %v %v %v %v", fc2.IsIdenticalBlock(), fc2.IsValidBlock(), fc2.IsDoubleForging(), fc2.IsTieBreak(), fc2.IsDifferentChain())
+				base := fmt.Sprintf("%v %v %v %v %v", fc.IsIdenticalBlock(), fc.IsValidBlock(), fc.IsDoubleForging(), fc.IsTieBreak(), fc.IsDifferentChain())
+				if got != base {
+					fail("fork-choice-depends-on-subsecond-receive-time", fmt.Sprintf("receive time of the %s block(s) + %d ms within the same second: predicates %s, with whole seconds %s (class %s)", which, ns/1e6, got, base, class))
+				}
+			}
+		}
 		// LIP-0014 on the op's own fields and the harness's own slot arithmetic
 		lslot, ok1 := refSlot(g, bt, last.Timestamp)
 		cslot, ok2 := refSlot(g, bt, cur.Timestamp)
